@@ -30,9 +30,9 @@ Lemma shape_complete s o : shape s -> shape (complete s o).
 Proof.
   intros H. unfold complete. destruct (inflight s) eqn:E; [|exact H].
   destruct H as [H1 H2 H3 H4 H5 H6 H7]. rewrite E in H6.
-  constructor; cbn; try congruence; try assumption.
-  - destruct (closed s), o; cbn; congruence.
-  - destruct (closed s), o; cbn; congruence.
+  constructor; cbn [inflight flushing pending closed stages segstages running maxrun]; try congruence; try assumption.
+  - destruct (closed s), o, (is_nil (primary s) && _); cbn; congruence.
+  - destruct (closed s), o, (is_nil (primary s) && _); cbn; congruence.
   - rewrite H6; reflexivity.
 Qed.
 
